@@ -134,6 +134,26 @@ DevExp(x, v) ==
 ImplEqReflexive(x) == ~("D_alldata_eq_opt_unknown" \in Dev /\ (x = "OPT" \/ x \notin KnownTypes))
 LawImplEq == ImplEqReflexive(t)
 
+(* The type-bitmap builder: whatever the order of the add calls (types from *)
+(* five windows, duplicates), the result is the RFC 4034 4.1.2 encoding of  *)
+(* the set, and an NSEC built from it composes and parses back.             *)
+Range5(q) == {q[i] : i \in 1..Len(q)}
+BmTypes == <<1, 15, 257, 1234, 65534>>
+BmProbe == <<1, 15, 257, 1234, 65534, 2>>
+BmSeqs == UNION {[1..n -> Range5(BmTypes)] : n \in 0..4}
+BmOnce == t = "A" /\ nv = 0
+LawBitmap == BmOnce => \A q \in BmSeqs :
+  LET S == {q[i] : i \in 1..Len(q)}
+      r == ParseRd("NSEC", ComposeRd("NSEC", <<nA, S>>))
+  IN r.ok /\ r.val = <<nA, S>>
+EmitBitmap == BmOnce => \A q \in BmSeqs :
+  LET S == {q[i] : i \in 1..Len(q)} IN
+  PrintT("CASE " \o ToJson(
+     [in |-> [mode |-> "bitmap", adds |-> q, probe |-> BmProbe],
+      exp |-> [bitmap |-> ComposeBitmap(S),
+               contains |-> [i \in 1..Len(BmProbe) |-> BmProbe[i] \in S],
+               rd |-> Exp("NSEC", <<nA, S>>)]]))
+
 EmitPlain == V => PrintT("CASE " \o ToJson([in |-> In("plain", ComposeRd(t, val)), exp |-> Exp(t, val),
                                         dev |-> DevExp(t, val)]))
 EmitPtr ==
